@@ -444,6 +444,9 @@
         let (_n, ns, nn) = clk::any_instant();
         clk::set_now(ns, nn);
         let seq = Sequence::new(kani::any());
+        // an earlier, abandoned RECORD_CURRENT_TIME may have left an instant behind: it must be REPLACED
+        let (old, _os, _on) = clk::any_instant();
+        s.state.last_recorded_time = if kani::any() { Some(old) } else { None };
         let r = s.handle_record_current_time(seq);
         assert!(r.size == 0 && r.header.control.seq == seq && r.header.control.fir && r.header.control.fin && !r.header.control.con && !r.header.control.uns);
         match s.state.last_recorded_time {
